@@ -144,7 +144,15 @@ func (s *OpenAPI3Exporter) GenerateOpenAPI3(app *syslwrapper.App) (*openapi3.T, 
 		}
 
 		// Map Responses
-		for _, value := range v.Response {
+		// in name order: several returns may map to the same status code (ok, 200, 200 <: T), and the
+		// last one added wins
+		responseNames := make([]string, 0, len(v.Response))
+		for responseName := range v.Response {
+			responseNames = append(responseNames, responseName)
+		}
+		sort.Strings(responseNames)
+		for _, responseName := range responseNames {
+			value := v.Response[responseName]
 			response := openapi3.NewResponse()
 			schemaRef := s.exportType(value.Type)
 			response.WithDescription(value.Name)
